@@ -20,8 +20,14 @@ import copy
 
 
 def _plain(node: ast.AST) -> bool:
-    while isinstance(node, ast.Attribute):
-        node = node.value
+    """a pure read: attribute / constant-or-name subscript chain that ends in a name"""
+    while True:
+        if isinstance(node, ast.Attribute):
+            node = node.value
+        elif isinstance(node, ast.Subscript) and isinstance(node.slice, (ast.Constant, ast.Name)):
+            node = node.value
+        else:
+            break
     return isinstance(node, ast.Name)
 
 
@@ -59,9 +65,9 @@ class _Canon(ast.NodeTransformer):
         if len(node.ops) != 1:
             return node
         op, left, right = node.ops[0], node.left, node.comparators[0]
-        if isinstance(op, (ast.Eq, ast.NotEq)) and _plain(left) and _plain(right):
+        if isinstance(op, (ast.Eq, ast.NotEq)):
             cl, cr = is_enum_const(left), is_enum_const(right)
-            if (self.structure and cl and not cr) or (self.sort_operands and cl == cr and ast.unparse(left) > ast.unparse(right)):
+            if (self.structure and cl and not cr and not isinstance(right, ast.Constant)) or (self.sort_operands and cl == cr and _plain(left) and _plain(right) and ast.unparse(left) > ast.unparse(right)):
                 node.left, node.comparators = right, [left]
         if self.structure and isinstance(op, (ast.In, ast.NotIn)) and isinstance(right, (ast.List, ast.Set)) and right.elts and all(is_enum_const(e) for e in right.elts):
             node.comparators = [ast.copy_location(ast.Tuple(elts=right.elts, ctx=ast.Load()), right)]
